@@ -88,6 +88,14 @@ fn main() {
                 None
             };
             let ops = ops.as_deref();
+            // where the last panic of the real code happened (for failure details)
+            std::panic::set_hook(Box::new(|info| {
+                let loc = info.location().map(|l| format!("{}:{}", l.file(), l.line())).unwrap_or_default();
+                let msg = info.payload().downcast_ref::<&str>().map(|s| s.to_string()).or_else(|| info.payload().downcast_ref::<String>().cloned()).unwrap_or_default();
+                if let Ok(mut g) = report::LAST_PANIC.lock() {
+                    *g = format!("{} at {}", msg.chars().take(200).collect::<String>(), loc);
+                }
+            }));
             let rep = match prop.as_str() {
                 "C15" => oracle::c15(tier, seed, ops),
                 "C19" => oracle::c19(tier, ops),
@@ -99,7 +107,13 @@ fn main() {
                     let mut rep = oracle::packet_oracle(prop, tier, seed, ops);
                     if ops.is_none() {
                         // the same property on packets of 64 KiB .. 256 MiB (the corpus above stays < 200 KB)
-                        large::large(&mut rep, prop, tier == "thorough", seed);
+                        let mut lrep = report::Report::new(prop, "");
+                        let r = std::panic::catch_unwind(std::panic::AssertUnwindSafe(|| large::large(&mut lrep, prop, tier == "thorough", seed)));
+                        rep.merge(lrep);
+                        if r.is_err() {
+                            let at = report::LAST_PANIC.lock().map(|g| g.clone()).unwrap_or_default();
+                            rep.fail("decode-panic", format!("large-packet oracle for {}", prop), format!("the real code panicked: {}", at));
+                        }
                     }
                     rep
                 }
